@@ -4214,8 +4214,8 @@ public:
 
     static void batchInverse(Goldilocks3::Element *res, Goldilocks3::Element *src, uint64_t size)
     {
-        Goldilocks3::Element aux[size];
-        Goldilocks3::Element tmp[size];
+        Goldilocks3::Element *aux = new Goldilocks3::Element[size];
+        Goldilocks3::Element *tmp = new Goldilocks3::Element[size];
         Goldilocks3::copy(tmp[0], src[0]);
 
         for (uint64_t i = 1; i < size; i++)
@@ -4233,6 +4233,8 @@ public:
         }
         copy(aux[0], z);
         std::memcpy(res, &aux[0], size * sizeof(Goldilocks3::Element));
+        delete[] aux;
+        delete[] tmp;
     }
 };
 
